@@ -6,7 +6,7 @@ from hypothesis import strategies as st
 
 from AegeanTools.source_finder import find_islands
 from vlib import refs
-from vlib.core import Res
+from vlib.core import Res, workdir
 
 PROP = "C02"
 SHARDS = {"quick": 8, "thorough": 16}
@@ -209,7 +209,7 @@ def check_e2e(c):
     snr = np.abs(F["img"]) / 1.0
     kept, rejected = refs.bfs_islands(snr, flood, seed)
     kept = sorted(kept, key=lambda g: min(g))
-    d = tempfile.mkdtemp(prefix="c02e_")
+    d = workdir("c02e_")
     try:
         path = os.path.join(d, "im.fits")
         skyimg.write_fits(path, F["img"], F["hdr"])
